@@ -79,6 +79,25 @@ CLAIMED = {
             "DESIGN.md §3 C20"),
 }
 
+# clauses added by the fourth seed round (DESIGN §3 "Round 4 added", §9)
+ROUND4 = {
+    "C01": " For every hand-written native serializer the bytes handed to set_value derive from the value only through representation accessors (no call that chooses another representation in between).",
+    "C02": " The frame reader consumes exactly one frame: read_exact into the fixed header, read_buf only into a buffer limited to the header's length.",
+    "C05": " is_datacenter_failover_possible is exactly `a datacenter is preferred && permit_dc_failover`.",
+    "C06": " Every is_idempotent field of a driver struct is filled from the statement's flag (never a constant).",
+    "C07": " Whether a paging state is present is decided by the HAS_MORE_PAGES flag alone (an empty state is still a state).",
+    "C08": " The frame body read loop leaves with an error on a read of 0 bytes (a frame cut inside its body cannot spin).",
+    "C09": " Compression is requested in STARTUP only if the server listed it, and an unsupported algorithm is forgotten before any frame is written.",
+    "C10": " Every removal of a connection from the pool republishes the shared connection list.",
+    "C12": " The NTS deterministic order starts at a node of a datacenter the keyspace replicates to.",
+    "C13": " The table of ignorable execution outcomes (another execution may still answer) equals the reviewed table.",
+    "C14": " Result metadata is skipped only on the user's opt-in or when this connection negotiated the metadata-id extension, never for 0-column metadata.",
+    "C15": " The replica refresh after node re-creation visits every replica of the full list and of every per-DC list.",
+    "C16": " A by-name type_check accepts only after the iterator over the fields the database lists is exhausted.",
+    "C17": " TypedRowStream marks a page as type-checked only after the check succeeded and deserializes rows only from a checked page.",
+    "C20": " use_keyspace_result never returns Ok once a connection answered with an error other than a broken connection, and only after at least one Ok.",
+}
+
 NOT_APPLICABLE = {
     "C04": "equality of computed replica lists over all rings/strategies: no structural clause that is a meaningful necessary condition; needs evaluation (different technique family)",
     "C11": "modular / fixed-point arithmetic identities over integer domains (shard_of, port congruences, iteration counts): needs evaluation or an SMT solver, a different family",
@@ -99,7 +118,7 @@ def main():
                 "evidence_file": "/verif/evidence/%s.json" % pid,
                 "replay_cmd_template": "./check explain {path}",
                 "engine": "scyllalint",
-                "level_claimed": {"category": "other", "text": text, "design_ref": ref},
+                "level_claimed": {"category": "other", "text": text + ROUND4.get(pid, ""), "design_ref": ref},
                 "level_note": note,
                 "technique": tech,
             })
